@@ -49,8 +49,8 @@ func init() {
 		register(&Rule{ID: "LEN-" + sp.name + "-deep", Min: 5, Thorough: true, Run: func(c *load.Ctx, r *report.RuleResult) { runLen(c, r, sp, 4) },
 			Doc: "LEN-" + sp.name + " with nesting bound 4"})
 	}
-	register(&Rule{ID: "LEN-trim", Min: 3, Run: runLenTrim,
-		Doc: "the three Length() methods end by stepping back over trailing blanks: with the pre-trim value P, the byte tested is data[P-1], a blank byte decrements P and the test repeats, a non-blank byte (or P = 0) ends the loop and P is returned"})
+	register(&Rule{ID: "LEN-trim", Min: 6, Run: runLenTrim,
+		Doc: "the three Length() methods let a rejection by Next() through (no recover in them) and end by stepping back over trailing blanks: with the pre-trim value P, the byte tested is data[P-1], a blank byte decrements P and the test repeats, a non-blank byte (or P = 0) ends the loop and P is returned"})
 }
 
 type lenSpec struct {
@@ -461,6 +461,36 @@ func runLenTrim(c *load.Ctx, r *report.RuleResult) {
 			continue
 		}
 		r.OK(key, "", "pre-trim value: "+sum.String()+"; trailing blanks are stepped over one byte at a time")
+		// Next()'s failure is Length()'s failure: the product rules read "the scanner rejects" as
+		// "Len returns an error", which holds only while Length() lets the panic through
+		pkey := "propagates|" + sp.rel + "." + sp.typ + ".Length"
+		lf := c.Func(sp.rel, sp.typ+".Length")
+		if lf == nil {
+			r.Unk(pkey, "", "method Length not found")
+			continue
+		}
+		where := ""
+		var walk func(f *ssa.Function)
+		walk = func(f *ssa.Function) {
+			for _, b := range f.Blocks {
+				for _, ins := range b.Instrs {
+					if call, ok := ins.(ssa.CallInstruction); ok {
+						if bi, ok := call.Common().Value.(*ssa.Builtin); ok && bi.Name() == "recover" {
+							where = c.Pos(ins.Pos())
+						}
+					}
+				}
+			}
+			for _, a := range f.AnonFuncs {
+				walk(a)
+			}
+		}
+		walk(lf)
+		if where != "" {
+			r.Bad(pkey, where, "Length() recovers from a panic of Next(): a text that the scanner rejects (cut short inside a value, broken syntax) then has a length instead of an error")
+		} else {
+			r.OK(pkey, c.Pos(lf.Pos()), "no recover in Length(): a rejection by Next() reaches the caller")
+		}
 	}
 }
 
